@@ -29,6 +29,8 @@ RULE = ('every macro (1088) and environment (57) name of the default walker and 
         'a macro, environment, math or specials; counted as distinct (input, option tuple).')
 EXHAUSTIVE = {'quick': False, 'thorough': False}
 ASSUMPTIONS = ['step budget A*(len+1)+B token-reader calls (A=400, B=4000); watchdog 20 s per case is inconclusive only',
+               'scaling families: a conversion that needs more than 2 s + 0.02 s/char of CPU time (time.process_time, own '
+               'process only) counts as unbounded; the unchanged library needs about 10 microseconds per character',
                'default tolerant parsing (latex_to_text without parse flags)']
 
 MATH_MODES = ['text', 'with-delimiters', 'verbatim', 'remove']
@@ -66,18 +68,22 @@ def plan(tier, seed):
         sh += [{'kind': 'enum', 'L': 4, 'k': k, 'n': 4, 'per': 2, 'name': 'enum%d' % k} for k in range(4)]
         sh += [{'kind': 'soup', 'count': 3000, 'per': 3, 'name': 'soup%d' % k} for k in range(3)]
         sh += [{'kind': 'docs', 'count': 700, 'per': 4, 'depth': 4, 'name': 'docs%d' % k} for k in range(3)]
+        sh += [{'kind': 'scaling', 'k': k, 'n': 2, 'sizes': [4, 8, 12, 16, 20, 22, 24, 26, 28, 32, 64], 'name': 'scale%d' % k}
+               for k in range(2)]
         return sh
     sh = [{'kind': 'names', 'k': k, 'n': 32, 'per': 40, 'name': 'names%d' % k} for k in range(32)]
     sh += [{'kind': 'enum', 'L': 5, 'k': k, 'n': 8, 'per': 2, 'name': 'enum%d' % k} for k in range(8)]
     sh += [{'kind': 'soup', 'count': 20000, 'per': 6, 'name': 'soup%d' % k} for k in range(8)]
     sh += [{'kind': 'docs', 'count': 4000, 'per': 8, 'depth': 4 + k % 3, 'name': 'docs%d' % k} for k in range(8)]
+    sh += [{'kind': 'scaling', 'k': k, 'n': 4, 'sizes': [4, 8, 12, 16, 20, 22, 24, 26, 28, 32, 48, 64, 128, 256, 512],
+            'name': 'scale%d' % k} for k in range(4)]
     return sh
 
 
 def floors(tier):
     return {'evaluations': 60000, 'distinct_nontrivial': 20000, 'conversions': 60000,
             'histkeys:macro_name': 1000, 'histkeys:env_name': 50, 'histkeys:option_pair': 110,
-            'histkeys:template': 44}
+            'histkeys:template': 44, 'scaling_conversions_timed': 300, 'histkeys:scaling_family': 30}
 
 
 def setup(rec):
@@ -103,7 +109,57 @@ def convert(s, opts, rec):
         rec.note_max('max_steps_per_char', round(n / float(len(s) + 1), 2))
 
 
+# families of inputs that grow by repeating a unit: (prefix, unit, suffix)
+SCALING = [('\\begin{', 'a', ''), ('\\begin{', 'ab ', ','), ('\\end{', 'a.b-c', '\n'), ('\\begin{', 'x y', '$'), ('\\begin {', 'a1*', ' \\'),
+           ('', '{', ''), ('', '}', ''), ('', '$', ''), ('', '[', ''), ('', '\\textbf', ''), ('', '\\frac', ''), ('', '%', '\n'),
+           ('a', ' ', 'b'), ('a', '\n', 'b'), ('', '\\', ''), ('', '`', ''), ('', '-', ''), ('', "'", ''), ('', '~', ''),
+           ('', '\\begin{itemize}', ''), ('', '\\item[', ''), ('', '\\sqrt[', ''), ('', '\\verb|', ''), ('$', 'a_', '$'),
+           ('', '\\(', ''), ('', '\\begin{equation}', ''), ('', '\\begin{', ''), ('', '\\end{x}', ''), ('\\input{', 'a/', '}'),
+           ('', '\\\\[', ''), ('\\begin{verbatim}', 'a ', ''), ('', '\\cite[', ''), ('', '\\"', ''), ('', '\\item ', ''),
+           ('\\begin{tabular}{', 'c', '}'), ('', '&', ''), ('', '\\begin{a b}\\end{a b} ', '')]
+
+
+def cpu_limit(s):
+    """CPU seconds a conversion may take before it counts as unbounded: three to four orders of magnitude above what the
+    unchanged library needs (about 10 microseconds per character), measured with time.process_time() so that waiting
+    for a loaded machine does not count."""
+    return 2.0 + 0.02 * len(s)
+
+
+def check_scaling(fam, sizes, rec):
+    import time
+    pre, unit, suf = fam
+    rec.hist('scaling_family', repr(fam))
+    for N in sizes:
+        s = pre + unit * N + suf
+        for oi, optt in enumerate(((0, 0, 0, 0, 0), (1, 2, 1, 1, 1))):
+            opts = opts_from(list(optt))
+            rec.case()
+            rec.monitor('scaling_conversions_timed')
+            t0 = time.process_time()
+            what, val = convert(s, opts, rec)
+            cpu = time.process_time() - t0
+            rec.note_max('max_cpu_seconds_per_conversion', round(cpu, 3))
+            case = {'s': s, 'opts': list(optt), 'scaling': [pre, unit, suf, N]}
+            if what == 'watchdog' or cpu > cpu_limit(s):
+                rec.violation(case, 'latex_to_text needs %.1f s of CPU time (limit %.1f s) for the %d-character input %r: the '
+                              'same unit repeated %d times took %s' % (cpu, cpu_limit(s), len(s), s[:80], N, what),
+                              mech='unbounded-time')
+                return
+            if what == 'exc':
+                rec.violation(case, 'latex_to_text raised %s: %s | input %r' % (type(val).__name__, str(val)[:150], s[:120]),
+                              mech='raises:' + type(val).__name__)
+                return
+            if what == 'budget':
+                rec.violation(case, 'latex_to_text makes no progress: %s | input %r' % (val, s[:120]), mech='no-progress')
+                return
+
+
 def check_case(case, rec):
+    if case.get('scaling'):
+        pre, unit, suf, N = case['scaling']
+        check_scaling((pre, unit, suf), [N], rec)
+        return
     s = case['s']
     opts = opts_from(case['opts'])
     rec.monitor('conversions')
@@ -174,6 +230,11 @@ def run_shard(desc, rec):
     rng = rng_for(desc)
     rot = OptRotor(rng)
     kind = desc['kind']
+    if kind == 'scaling':
+        for fi, fam in enumerate(SCALING):
+            if fi % desc['n'] == desc['k']:
+                check_scaling(fam, desc['sizes'], rec)
+        return
     per = desc['per']
     if kind == 'names':
         names = soup.db_names()
